@@ -5,6 +5,10 @@ import itertools
 RESERVED = "value"  # a TRIGGER_KWARGS name: unexpected keywords with such names are dropped by pyscript
 
 
+# default values: every parameter kind has a falsy default somewhere (None, 0, '', False are legal defaults)
+DEFAULT_VALUES = {"a1": "0", "p2": "None", "k1": "None", "k2": "''"}
+
+
 def signatures(maxn):
     """All signatures with up to maxn parameters of each kind.  Yields (source of parameter list, names)."""
     for npo in range(maxn + 1):
@@ -18,7 +22,7 @@ def signatures(maxn):
                                 parts, names = [], []
                                 pos = [f"p{i + 1}" for i in range(npo)] + [f"a{i + 1}" for i in range(nno)]
                                 for i, nm in enumerate(pos):
-                                    d = f"={'t'}('d_{nm}', 'D{nm}')" if i >= npos - ndef else ""
+                                    d = f"=t('d_{nm}', {DEFAULT_VALUES.get(nm, repr('D' + nm))})" if i >= npos - ndef else ""
                                     parts.append(nm + d)
                                     names.append(nm)
                                     if i == npo - 1:
@@ -29,7 +33,7 @@ def signatures(maxn):
                                     parts.append("*")
                                 for i in range(nkw):
                                     nm = f"k{i + 1}"
-                                    parts.append(nm + (f"=t('d_{nm}', 'D{nm}')" if kwmask[i] else ""))
+                                    parts.append(nm + (f"=t('d_{nm}', {DEFAULT_VALUES.get(nm, repr('D' + nm))})" if kwmask[i] else ""))
                                     names.append(nm)
                                 if kwarg:
                                     parts.append("**kw")
@@ -87,6 +91,9 @@ def roles(lv):
         "with": ("", f"with CM('W{L}') as x:\n    pass", f"t('q{L}', x)"),
         "def": ("", f"def x():\n    return 'D{L}'", f"t('q{L}', x())"),
         "param": (f"x='P{L}'", f"t('r{L}', x)", f"t('q{L}', x)"),
+        "vararg": ("*x", f"t('r{L}', x)", f"t('q{L}', x)"),
+        "kwarg": ("**x", f"t('r{L}', sorted(x))", f"t('q{L}', sorted(x))"),
+        "kwonly": (f"*, x='O{L}'", f"t('r{L}', x)", f"t('q{L}', x)"),
         "walrus": ("", f"t('r{L}', (x := 'W{L}'))", f"t('q{L}', x)"),
         "import": ("", "import math as x", f"t('q{L}', x.floor(1.5))"),
         "class": ("", f"class x:\n    v = 'K{L}'", f"t('q{L}', x.v)"),
@@ -95,7 +102,8 @@ def roles(lv):
 
 ROLE_NAMES = list(roles(0).keys())
 QUICK_ROLES = ["unused", "read", "assign_read", "read_assign", "assign_late", "aug", "global_w", "nonlocal", "del",
-               "for", "comp", "except", "param", "def"]
+               "for", "comp", "except", "param", "def", "vararg"]
+DEEP_ROLES = ["unused", "read", "assign_read", "nonlocal", "aug", "param", "global_w"]
 
 
 def _ind(text, n=1):
@@ -112,7 +120,7 @@ def scope_programs(depth, role_names):
 
 def scope_program(combo, module_x, late):
     depth = len(combo)
-    names = ["f", "g", "h"][:depth]
+    names = ["f", "g", "h", "k"][:depth]
     # innermost first
     inner = None
     for lv in range(depth, 0, -1):
@@ -162,6 +170,19 @@ def misc_programs():
     yield "def f():\n    y = 'f'\n    def g():\n        global y\n        return y\n    return g()\ny = 'M'\nr = f()"
     yield "def f():\n    global newg\n    newg = 7\nf()\nr = newg"
     yield "def f():\n    nonlocal q\n" if False else "r = 1"
+    # closures over *args / **kwargs / keyword-only parameters; decorator factories
+    yield "def tagged(*tags):\n    def deco(fn):\n        def w(*a):\n            return (tags, fn(*a))\n        return w\n    return deco\n@tagged('p', 'q')\ndef f(v):\n    return v\nr = f(t('v', 1))"
+    yield "def f(*args):\n    def g():\n        return args\n    return g()\nr = f(1, 2)"
+    yield "def f(*args):\n    def g():\n        nonlocal args\n        args = args + (9,)\n    g()\n    return args\nr = f(1)"
+    yield "def f(**kw):\n    def g():\n        return sorted(kw.items())\n    return g()\nr = f(a=1)"
+    yield "def f(*, k=None):\n    def g():\n        return k\n    return g()\nr = (f(), f(k=0))"
+    yield "def f(a, *, k=0, m=None, n='', o=False):\n    return (a, k, m, n, o)\nr = (f(1), f(1, k=5, o=True))"
+    yield "def f(a=None, b=0, c='', d=()):\n    return (a, b, c, d)\nr = (f(), f(1, 2))"
+    # recursion with rebinding in a grandchild; same-named cells in caller and callee
+    yield ("def rec(n):\n    x = n\n    def mid():\n        def inner():\n            nonlocal x\n            x = x * 10\n        inner()\n"
+           "    if n > 0:\n        sub = rec(n - 1)\n    else:\n        sub = ()\n    mid()\n    return (x,) + sub\nr = rec(2)")
+    yield ("def caller():\n    x = 'caller'\n    def keep():\n        return x\n    def callee():\n        x = 'callee'\n        def mid():\n            def inner():\n"
+           "                nonlocal x\n                x = x + '!'\n            inner()\n        mid()\n        return x\n    r = callee()\n    return (r, x, keep())\nr = caller()")
     # recursion
     yield "def fact(n):\n    return 1 if n <= 1 else n * fact(n - 1)\nr = fact(t('n', 6))"
     yield "def fib(n):\n    if n < 2:\n        return n\n    return fib(n - 1) + fib(n - 2)\nr = [fib(i) for i in range(8)]"
